@@ -561,6 +561,13 @@ main(void)
   char*  line = NULL;
   size_t cap  = 0;
   char*  tok[16];
+  {
+    // the cases are read from a duplicate of descriptor 0, so that a case may close descriptor 0 itself
+    FILE* const in = fdopen(dup(0), "r");
+    if (in) {
+      stdin = in;
+    }
+  }
   while (vgetline(&line, &cap)) {
     alarm(60);
     int n = vsplit(line, tok, 16);
@@ -671,12 +678,22 @@ main(void)
       }
       vw_mode = 1;
       vw_b1 = vw_b2  = VW_KEEP_BLKSIZE;
+      if (rel == 'Z') {
+        close(0); // relation Z: two different files, compared in a process whose descriptor 0 is closed (a daemon)
+      }
       const int fds0 = count_fds();
       errno          = atoi(tok[6]);
       vw_active      = 1;
       const bool eq  = zix_file_equals(&track.base, "a", pb);
       vw_active      = 0;
       const int fds1 = count_fds();
+      if (rel == 'Z') {
+        const int nfd = open("/dev/null", O_RDONLY);
+        if (nfd > 0) {
+          dup2(nfd, 0);
+          close(nfd);
+        }
+      }
       printf("eq= %s fds= %d leak= %d || %s\n", eq ? "true" : "false", fds1 - fds0, track.n_alloc - track.n_free,
              vw_log_len ? vw_log : "-");
       free(ab);
